@@ -1,5 +1,6 @@
 import Ptk.Proto
 import Ptk.Model.C13
+import Ptk.Gen.C13
 open Ptk Ptk.Py Ptk.Proto Ptk.C13
 
 /-- bytes: `b:` + comma separated decimals -/
@@ -22,16 +23,39 @@ def decStrs : List String → Option (List Text × List String)
     let l ← (rest.take n).mapM decStr
     pure (l, rest.drop n)
 
+def cpcCode : CPc → String
+  | .idle => "-" | .waiting => "wait" | .reading => "read" | .yielding => "yield" | .done => "done"
+
 structure DrvSt where
   fs : FS
   th : TH
+  tn : THn
+
+def npcCode : NPc → String
+  | .notStarted => "-" | .started => "start" | .called => "called" | .iter => "iter"
+  | .notify => "notify" | .looping => "loop" | .notifyFinal => "notifyFinal"
+  | .loopingFinal => "loopFinal" | .finished => "fin"
+
+def consLine (c : Cons) : String :=
+  let ev := if c.cpc = .waiting ∨ c.cpc = .reading ∨ c.cpc = .yielding then encBool c.ev else "N"
+  s!"{cpcCode c.cpc} {ev} {encStrs c.out}"
+
+def tnLine (t : THn) : String :=
+  s!"L={npcCode t.lpc} loaded={encBool t.loaded} strs={encStrs t.strs} events={encList toString t.events} | {consLine (t.cons 0)} | {consLine (t.cons 1)} | {consLine (t.cons 2)}"
+
+def parseStepN : List String → Option StepN
+  | ["nc", i, "start"] => do pure (.cstart (← decNat i))
+  | ["nc", i, "wait"] => do pure (.cwait (← decNat i))
+  | ["nc", i, "read"] => do pure (.cread (← decNat i))
+  | ["nc", i, "yield"] => do pure (.cyield (← decNat i))
+  | ["nl", "reset"] => some .lreset | ["nl", "snap"] => some .lsnap
+  | ["nl", "append"] => some .lappend | ["nl", "notify"] => some .lnotify
+  | ["nl", "set"] => some .lset | ["nl", "done"] => some .ldone | ["nl", "final"] => some .lfinal
+  | _ => none
 
 def lpcCode : LPc → String
   | .notStarted => "-" | .started => "start" | .called => "called" | .iter => "iter"
   | .notify => "notify" | .notifyFinal => "notifyFinal" | .finished => "fin"
-
-def cpcCode : CPc → String
-  | .idle => "-" | .waiting => "wait" | .reading => "read" | .yielding => "yield" | .done => "done"
 
 def thLine (t : TH) : String :=
   let ev := if t.cpc = .waiting ∨ t.cpc = .reading ∨ t.cpc = .yielding then encBool t.ev else "N"
@@ -119,11 +143,25 @@ def stepLine (d : DrvSt) (toks : List String) : DrvSt × String :=
         ({ d with th := t }, thLine t)
       | _ => (d, "bad-op")
     | none => (d, "bad-op")
+  | "nnew" :: rest =>
+    match decStrs rest with
+    | some (old, rest) =>
+      match decStrs rest with
+      | some (pre, []) =>
+        let t := THn.init old pre
+        ({ d with tn := t }, tnLine t)
+      | _ => (d, "bad-op")
+    | none => (d, "bad-op")
   | _ =>
     match parseStep toks with
     | some s =>
       let t := step d.th s
       ({ d with th := t }, thLine t)
-    | none => (d, "bad-op")
+    | none =>
+      match parseStepN toks with
+      | some s =>
+        let t := stepN Gen.C13.notifyCopies d.tn s
+        ({ d with tn := t }, tnLine t)
+      | none => (d, "bad-op")
 
-def main : IO Unit := runS stepLine { fs := FS.empty, th := TH.init [] [] }
+def main : IO Unit := runS stepLine { fs := FS.empty, th := TH.init [] [], tn := THn.init [] [] }
